@@ -760,6 +760,114 @@ func c07Embedded(c *rt.Ctx, sub0 int) {
 	}
 }
 
+// c07AfterErrors: a decode that fails inside an array (missing or wrong separator, truncation, a
+// bad element after three or more good ones) hands its pooled scratch array back; the next decode
+// of the same slice type must not write outside what it then takes from the pool. Canary arrays
+// of the scratch array's own size class are allocated around the failing call and checked after
+// the next successful one (checkptr and ASan see the overflow directly).
+func c07AfterErrors(c *rt.Ctx, sub0 int) {
+	type e48 [6]uint64
+	type e16 struct{ A, B int64 }
+	elems := []struct {
+		name string
+		t    reflect.Type
+		lit  func(i int) string
+	}{
+		{"[6]uint64", reflect.TypeOf(e48{}), func(i int) string { return fmt.Sprintf("[%d,2,3,4,5,6]", i) }},
+		{"uint64", reflect.TypeOf(uint64(0)), func(i int) string { return fmt.Sprint(i) }},
+		{"struct16", reflect.TypeOf(e16{}), func(i int) string { return fmt.Sprintf(`{"A":%d,"B":2}`, i) }},
+		{"string", reflect.TypeOf(""), func(i int) string { return fmt.Sprintf(`"s%d"`, i) }},
+		{"[3]uint8", reflect.TypeOf([3]uint8{}), func(i int) string { return fmt.Sprintf("[%d,2,3]", i%200) }},
+		{"[]int", reflect.TypeOf([]int{}), func(i int) string { return fmt.Sprintf("[%d,2]", i) }},
+	}
+	sub := sub0
+	for _, el := range elems {
+		st := reflect.SliceOf(el.t)
+		join := func(n int, sep string) string {
+			var parts []string
+			for i := 0; i < n; i++ {
+				parts = append(parts, el.lit(i+1))
+			}
+			return strings.Join(parts, sep)
+		}
+		bads := []string{"[" + join(3, ",") + " " + el.lit(4) + "]", "[" + join(4, ","), "[" + join(3, ",") + ";" + el.lit(4) + "]", "[" + join(5, ",") + ",x]", "[" + join(3, ",") + ",]", "[" + el.lit(1) + " " + el.lit(2) + "]"}
+		good := "[" + join(7, ",") + "]"
+		for bi, bad := range bads {
+			for _, holder := range []string{"top", "member"} {
+				if !c.Cur(sub, fmt.Sprintf("shapes=core\nafter a failing []%s decode (%s, bad document %d)", el.name, holder, bi)) {
+					sub++
+					continue
+				}
+				runtime.GC()
+				runtime.GC()
+				// canaries of the size classes a 2-, 4- and 8-element scratch array falls into
+				var canaries [][]byte
+				plant := func() {
+					for _, n := range []int{2, 4, 8} {
+						for i := 0; i < 24; i++ {
+							b := make([]byte, n*int(el.t.Size()))
+							for j := range b {
+								b[j] = 0xC7
+							}
+							canaries = append(canaries, b)
+						}
+					}
+				}
+				plant()
+				decode := func(doc string) (reflect.Value, error) {
+					if holder == "top" {
+						d := reflect.New(st)
+						return d.Elem(), gojson.Unmarshal([]byte(doc), d.Interface())
+					}
+					ht := reflect.StructOf([]reflect.StructField{{Name: "A", Type: reflect.TypeOf(0)}, {Name: "L", Type: st}})
+					d := reflect.New(ht)
+					return d.Elem().Field(1), gojson.Unmarshal([]byte(`{"A":1,"L":`+doc+`}`), d.Interface())
+				}
+				var ferr, gerr error
+				var got reflect.Value
+				pan, msg, _ := rt.Guard(func() {
+					_, ferr = decode(bad)
+					plant()
+					got, gerr = decode(good)
+				})
+				c.Eval(2)
+				if pan {
+					c.Obs("panics_seen_judged_by_C06", 1)
+					_ = msg
+					sub++
+					continue
+				}
+				if ferr == nil {
+					c.Obs("after_error_first_decode_did_not_fail", 1)
+				}
+				want := reflect.New(st)
+				stdjson.Unmarshal([]byte(good), want.Interface())
+				switch {
+				case gerr != nil || !reflect.DeepEqual(got.Interface(), want.Elem().Interface()):
+					c.Violate(rt.Violation{Monitor: "twin", Entry: "Unmarshal", Kind: "valid-decode-wrong-after-error", Ctx: "[]" + el.name, Detail: fmt.Sprintf("after %s failed, %s decoded to %v (err %v)", bad, good, got, gerr), Sub: sub})
+				default:
+					for ci, b := range canaries {
+						for j := range b {
+							if b[j] != 0xC7 {
+								c.Violate(rt.Violation{Monitor: "canary", Entry: "Unmarshal", Kind: "neighbouring-allocation-written", Ctx: "[]" + el.name, Detail: fmt.Sprintf("after %s failed and %s was decoded, canary allocation %d (%d bytes) changed at byte %d", bad, good, ci, len(b), j), Sub: sub})
+								ci = -1
+								break
+							}
+						}
+						if ci == -1 {
+							break
+						}
+					}
+				}
+				runtime.KeepAlive(canaries)
+				c.Obs("after_error_slice_decodes", 1)
+				sub++
+			}
+		}
+		c.NonTrivial("after-error", el.name)
+	}
+}
+
 func init() {
 	register(&Prop{
 		ID: "C07",
@@ -831,6 +939,9 @@ func init() {
 				}
 				if k == 11 && c.Idx%64 == 3 {
 					c07Embedded(c, 700000)
+				}
+				if k == 11 && c.Idx%64 == 4 {
+					c07AfterErrors(c, 800000)
 				}
 				if k == 0 {
 					c.Sample(map[string]any{"type": t.String(), "docs": len(docs), "example_doc": docs[len(docs)/2][0], "fields": descs})
